@@ -188,9 +188,11 @@ fn check_overflow(c: &Overflow, st: &mut Stats) -> Result<(), String> {
 }
 
 fn overflow_strategy() -> impl Strategy<Value = Overflow> {
-    // weights whose sum lands near 2^64: k-1 random weights plus a last one chosen as
-    // (2^64 - partial) + delta, delta in -3..=3.
-    (2usize..6)
+    // (a) weights whose sum lands near 2^64: k-1 random weights plus a last one chosen as
+    //     (2^64 - partial) + delta, delta in -3..=3;
+    // (b) weights whose sum is far beyond 2^64, so that the running sum wraps at an early or middle entry (possibly
+    //     more than once) and the entries after it do not wrap again: huge and small weights in any order.
+    let near = (2usize..6)
         .prop_flat_map(|k| (proptest::collection::vec(1u64..u64::MAX / 8, k - 1), -3i128..=3, any::<bool>()))
         .prop_map(|(mut ws, delta, shuffle)| {
             let partial: u128 = ws.iter().map(|w| *w as u128).sum();
@@ -200,7 +202,18 @@ fn overflow_strategy() -> impl Strategy<Value = Overflow> {
                 ws.reverse();
             }
             Overflow { weights: ws }
-        })
+        });
+    let weight = prop_oneof![
+        Just(1u64 << 63),
+        Just(1u64 << 62),
+        Just(u64::MAX),
+        Just(u64::MAX / 2 + 1),
+        Just(u64::MAX / 5),
+        1u64..8,
+        (1u64 << 60)..u64::MAX,
+    ];
+    let far = proptest::collection::vec(weight, 2..7).prop_map(|weights| Overflow { weights });
+    prop_oneof![near, far]
 }
 
 #[derive(Debug, Clone, Serialize, Deserialize)]
@@ -256,7 +269,7 @@ pub fn main(env: &Env) -> i32 {
     parts.push(run_proptest(
         env,
         "overflow",
-        "2-5 weights whose sum lies within +-3 of 2^64; Schedule::new must reject exactly the overflowing ones; distinct = weight vector",
+        "2-5 weights whose sum lies within +-3 of 2^64, or 2-6 huge and small weights in any order whose running sum wraps at an early or middle entry (possibly twice); Schedule::new must reject exactly the lists whose 128-bit sum exceeds u64::MAX, and for accepted lists the thresholds of the exact total satisfy the oracle; distinct = weight vector",
         PartOpts { cases: env.tier.pick(20_000, 500_000), max_shrink_iters: 256, samples: 3 },
         overflow_strategy,
         check_overflow,
